@@ -61,9 +61,14 @@ fn ref_step(st: (u64, u64), o: &Op, bits: usize) -> (u64, u64) {
 }
 
 pub fn real_run(bits: usize, ops: &[Op]) -> String {
+    real_run2(bits, bits, ops)
+}
+
+/// two sets, possibly of different widths, in one environment
+pub fn real_run2(bits0: usize, bits1: usize, ops: &[Op]) -> String {
     let r = catch_unwind(AssertUnwindSafe(|| {
         let env = Rc::new(BDDEnv::new());
-        let s = [BDDSet::with_env(bits, &env), BDDSet::with_env(bits, &env)];
+        let s = [BDDSet::with_env(bits0, &env), BDDSet::with_env(bits1, &env)];
         let mut answers = vec![];
         for o in ops {
             match *o {
@@ -100,6 +105,97 @@ fn emit(out: &mut Out, bits: usize, ops: &[Op]) {
     out.emit("set", &args.show(), &real_run(bits, ops));
 }
 
+fn emit_w(out: &mut Out, bits: usize, ops: &[Op]) {
+    let args = Sx::l(vec![Sx::n(bits), Sx::l(ops.iter().map(op_sx).collect())]);
+    out.emit("setw", &args.show(), &real_run(bits, ops));
+}
+fn emit_2(out: &mut Out, b0: usize, b1: usize, ops: &[Op]) {
+    let args = Sx::l(vec![Sx::l(vec![Sx::n(b0), Sx::n(b1)]), Sx::l(ops.iter().map(op_sx).collect())]);
+    out.emit("set2", &args.show(), &real_run2(b0, b1, ops));
+}
+
+/// wide sets (up to 64 bits) with elements that agree on their low 8 / 16 / 32 / 56 bits, and two sets of different
+/// widths sharing one environment (each used on its own)
+fn part_wide(out: &mut Out, o: &Opts) {
+    let mut rng = Rng::new(o.seed ^ 0x5d);
+    let mask = |bits: usize| if bits >= 64 { usize::MAX } else { (1usize << bits) - 1 };
+    for bits in [7usize, 8, 9, 15, 16, 17, 31, 32, 33, 55, 56, 57, 58, 63, 64] {
+        let m = mask(bits);
+        let reps = if o.thorough { 40 } else { 6 };
+        for _ in 0..reps {
+            let base = (rng.next() as usize) & m & 0xffff;
+            // elements that differ from base only above bit 8, 16, 32, 56, or in the top bit
+            let mut elems = vec![base, base ^ 1, 0, m];
+            for sh in [8usize, 16, 32, 56] {
+                if sh < bits {
+                    elems.push((base | (1 << sh)) & m);
+                    elems.push((base | ((rng.next() as usize) << sh)) & m);
+                }
+            }
+            elems.push((base | (1 << (bits - 1))) & m);
+            elems.sort();
+            elems.dedup();
+            let mut seq = vec![];
+            let k = 1 + rng.below(3) as usize;
+            for _ in 0..k {
+                seq.push(Op::Ins(0, *rng.pick(&elems)));
+            }
+            seq.push(Op::Ins(1, *rng.pick(&elems)));
+            for e in &elems {
+                seq.push(Op::Has(0, *e));
+                seq.push(Op::Has(1, *e));
+            }
+            match rng.below(4) {
+                0 => seq.push(Op::Uni(0, 1)),
+                1 => seq.push(Op::Int(0, 1)),
+                2 => seq.push(Op::Cmp(0, 1)),
+                _ => {
+                    seq.push(Op::Univ(1));
+                    seq.push(Op::Cmp(1, 0));
+                }
+            }
+            for e in &elems {
+                seq.push(Op::Has(0, *e));
+                seq.push(Op::Has(1, *e));
+            }
+            emit_w(out, bits, &seq);
+        }
+    }
+    // two widths in one environment, narrow first and wide first
+    let n = if o.thorough { 2_000 } else { 200 };
+    for k in 0..n {
+        let (b0, b1) = *rng.pick(&[(3usize, 5usize), (5, 3), (2, 16), (16, 2), (1, 64), (64, 1), (8, 9), (4, 4), (1, 2), (6, 33)]);
+        let (m0, m1) = (mask(b0), mask(b1));
+        let mut seq = vec![];
+        let len = 2 + rng.below(10);
+        // which set speaks first is part of the history
+        let first = (k % 2) as u8;
+        seq.push(Op::Ins(first, 1 & if first == 0 { m0 } else { m1 }));
+        for _ in 0..len {
+            let i = rng.below(2) as u8;
+            let m = if i == 0 { m0 } else { m1 };
+            let e = match rng.below(3) {
+                0 => rng.below(8) as usize & m,
+                1 => (1usize | ((rng.next() as usize) << 3)) & m,
+                _ => (rng.next() as usize) & m,
+            };
+            seq.push(match rng.below(8) {
+                0 | 1 | 2 => Op::Ins(i, e),
+                3 => Op::Emp(i),
+                4 => Op::Univ(i),
+                _ => Op::Has(i, e),
+            });
+        }
+        for i in 0..2u8 {
+            let m = if i == 0 { m0 } else { m1 };
+            for e in [0usize, 1, 9 & m, 17 & m, 25 & m, m, m >> 1] {
+                seq.push(Op::Has(i, e));
+            }
+        }
+        emit_2(out, b0, b1, &seq);
+    }
+}
+
 fn all_ops(bits: usize) -> Vec<Op> {
     let mut v = vec![];
     for i in 0..2u8 {
@@ -119,6 +215,7 @@ fn all_ops(bits: usize) -> Vec<Op> {
 }
 
 pub fn main(out: &mut Out, o: &Opts) {
+    part_wide(out, o);
     // complete BFS over all reachable pairs of reference states, bits = 2
     let bits = 2usize;
     let ops = all_ops(bits);
@@ -242,10 +339,17 @@ pub fn replay(args: &Sx) -> String {
         Some(a) if a.len() == 2 => a,
         _ => return "(harness-error args)".into(),
     };
-    let bits: usize = a[0].atom().and_then(|s| s.parse().ok()).unwrap_or(2);
+    // one width, or a pair of widths (op set2)
+    let (b0, b1): (usize, usize) = match a[0].list() {
+        Some(l) if l.len() == 2 => (l[0].atom().and_then(|s| s.parse().ok()).unwrap_or(2), l[1].atom().and_then(|s| s.parse().ok()).unwrap_or(2)),
+        _ => {
+            let b = a[0].atom().and_then(|s| s.parse().ok()).unwrap_or(2);
+            (b, b)
+        }
+    };
     let ops: Option<Vec<Op>> = a[1].list().map(|l| l.iter().filter_map(sx_op).collect());
     match ops {
-        Some(o) => real_run(bits, &o),
+        Some(o) => real_run2(b0, b1, &o),
         None => "(harness-error ops)".into(),
     }
 }
